@@ -29,7 +29,13 @@ Ch alpha(unsigned i)
     case 0: return Ch('a');
     case 1: return static_cast<Ch>(-1); // all bits set: top bit (sign of compare for every character type) and equal to eof() after to_int_type for the wide types
     case 2: return Ch(0);
-    default: return sizeof(Ch) == 1 ? Ch('b') : static_cast<Ch>(Ch('a') + 0x100); // wide: equal to 'a' modulo 256 (table/narrowing shortcuts collide)
+    case 3: return sizeof(Ch) == 1 ? Ch('b') : static_cast<Ch>(Ch('a') + 0x100); // wide: equal to 'a' modulo 256 (table/narrowing shortcuts collide)
+    // the random part also uses neighbours that differ in one low bit (word-at-a-time / bit-trick scans confuse them)
+    case 4: return Ch('c');
+    case 5: return Ch('`');
+    case 6: return static_cast<Ch>(-2);
+    case 7: return Ch(1);
+    default: return Ch('b');
     }
 }
 std::string show(Str const& s)
@@ -151,6 +157,18 @@ long long P(std::size_t v) { return v == NPOS ? -1 : (long long)v; }
         vf::eq_sign("ret", ev_, sv_);                                                                                  \
     } while (0)
 
+// every value 0..n for short needles, the edges and the middle for long ones
+std::vector<std::size_t> upto(std::size_t n)
+{
+    std::vector<std::size_t> r;
+    if (n <= 8) {
+        for (std::size_t i = 0; i <= n; ++i) { r.push_back(i); }
+    } else {
+        r = {0, 1, 2, n / 2, n - 1, n};
+    }
+    return r;
+}
+
 void drive(Ctx& c, std::vector<std::size_t> const& poss, std::vector<std::size_t> const& counts)
 {
     bool const nontrivial = !(c.s.empty() && c.sn.empty());
@@ -178,7 +196,7 @@ void drive(Ctx& c, std::vector<std::size_t> const& poss, std::vector<std::size_t
         SEARCH("find_last_not_of(sv,pos)", pos, NPOS, e.find_last_not_of(c.en, pos), s.find_last_not_of(c.sn, pos));
         SEARCH("find_last_not_of(ch,pos)", pos, NPOS, e.find_last_not_of(ch, pos), s.find_last_not_of(ch, pos));
         SEARCH("find_last_not_of(ptr,pos)", pos, NPOS, e.find_last_not_of(c.nz, pos), s.find_last_not_of(c.nz, pos));
-        for (std::size_t cnt = 0; cnt <= c.nlen; ++cnt) { // the standard requires [s, s+count) to be valid
+        for (std::size_t cnt : upto(c.nlen)) { // the standard requires [s, s+count) to be valid
             SEARCH("find(ptr,pos,count)", pos, cnt, e.find(c.en.data(), pos, cnt), s.find(c.en.data(), pos, cnt));
             SEARCH("rfind(ptr,pos,count)", pos, cnt, e.rfind(c.en.data(), pos, cnt), s.rfind(c.en.data(), pos, cnt));
             SEARCH("find_first_of(ptr,pos,count)", pos, cnt, e.find_first_of(c.en.data(), pos, cnt), s.find_first_of(c.en.data(), pos, cnt));
@@ -234,10 +252,10 @@ void drive(Ctx& c, std::vector<std::size_t> const& poss, std::vector<std::size_t
         for (std::size_t c1 : counts) {
             SIGNOP("compare(pos1,count1,sv)", p1, c1, 0, NPOS, e.compare(p1, c1, c.en), s.compare(p1, c1, c.sn));
             SIGNOP("compare(pos1,count1,ptr)", p1, c1, 0, NPOS, e.compare(p1, c1, c.nz), s.compare(p1, c1, c.nz));
-            for (std::size_t c2 = 0; c2 <= c.nlen; ++c2) {
+            for (std::size_t c2 : upto(c.nlen)) {
                 SIGNOP("compare(pos1,count1,ptr,count2)", p1, c1, 0, c2, e.compare(p1, c1, c.en.data(), c2), s.compare(p1, c1, c.en.data(), c2));
             }
-            for (std::size_t p2 = 0; p2 <= c.sn.size(); ++p2) {
+            for (std::size_t p2 : upto(c.sn.size())) {
                 for (std::size_t c2 : counts) {
                     SIGNOP("compare(pos1,count1,sv,pos2,count2)", p1, c1, p2, c2, e.compare(p1, c1, c.en, p2, c2),
                         s.compare(p1, c1, c.sn, p2, c2));
@@ -389,8 +407,27 @@ void run_case(vf::Case& c)
         counts.push_back(NPOS);
         counts.push_back(NPOS - 1);     // huge but not npos: pos + count must not wrap
         counts.push_back(NPOS / 2 + 2); // above PTRDIFF_MAX
+    } else if (c.rng.chance(1, 16)) {
+        // long, periodic strings: skip tables, block scans and byte-count arithmetic only go wrong beyond 8 / 128 / 256 characters
+        unsigned A      = 2 + (unsigned)c.rng.below(8);
+        std::size_t hl  = 130 + (std::size_t)c.rng.below(570);
+        std::size_t per = 1 + (std::size_t)c.rng.below(5);
+        Str pat;
+        for (std::size_t i = 0; i < per; ++i) { pat += alpha((unsigned)c.rng.below(A)); }
+        for (std::size_t i = 0; i < hl; ++i) { h += pat[i % per]; }
+        for (int k = 0; k < 3; ++k) { h[c.rng.below(hl)] = alpha((unsigned)c.rng.below(A)); }
+        std::size_t nl = c.rng.chance(1, 2) ? 1 + (std::size_t)c.rng.below(12) : 120 + (std::size_t)c.rng.below(300);
+        if (nl > hl) { nl = hl; }
+        std::size_t a = (std::size_t)c.rng.below(hl - nl + 1);
+        n = h.substr(a, nl);
+        if (c.rng.chance(1, 3)) { n[c.rng.below(n.size())] = alpha((unsigned)c.rng.below(A)); }
+        if (c.rng.chance(1, 4)) { n = Str(1, h[a ? a - 1 : 0]) + n; } // shifted by one against the haystack's period
+        poss   = {0, (std::size_t)c.rng.below(hl), hl, NPOS};
+        counts = {0, 130 + (std::size_t)c.rng.below(200), NPOS};
+        one_pair(h, n, poss, counts);
+        return;
     } else {
-        unsigned A   = 2 + (unsigned)c.rng.below(3);
+        unsigned A   = 2 + (unsigned)c.rng.below(7);
         std::size_t hl = (std::size_t)c.rng.below(41);
         for (std::size_t i = 0; i < hl; ++i) { h += alpha((unsigned)c.rng.below(A)); }
         if (hl > 0 && c.rng.chance(2, 3)) {
